@@ -53,21 +53,31 @@ Proof. reflexivity. Qed.
 Theorem Tx_MsgTx_tie (t : mwtx) : Kernels3.Tx_MsgTx_ tok (g_tx t) = mt_val _ (w_msg _ _ t).
 Proof. reflexivity. Qed.
 
-Theorem Tx_Hash_tie next (t : mwtx) :
+(* (phase 5) t.msgTx.TxHash() panics on a nil message: the tie needs the message to be non-nil *)
+Theorem Tx_Hash_tie next (t : mwtx) : mt_val _ (w_msg _ _ t) <> None ->
   Kernels3.Tx_Hash_ tok TxHash (g_tx t)
-  = let '(_, t', ph) := wtx_hash _ _ _ W next t in (Some (snd ph), g_tx t').
+  = Ok (let '(_, t', ph) := wtx_hash _ _ _ W next t in (Some (snd ph), g_tx t')).
 Proof.
-  unfold Kernels3.Tx_Hash_, wtx_hash, g_tx. destruct t as [p m [[hp hv]|] ix]; reflexivity.
+  intro Hnn. unfold Kernels3.Tx_Hash_, wtx_hash, g_tx. destruct t as [p m [[hp hv]|] ix]; cbn in Hnn |- *.
+  - reflexivity.
+  - destruct (mt_val txc m) as [x|] eqn:E; [reflexivity | now elim Hnn].
+Qed.
+
+Theorem Tx_Hash_nil_tie (t : mwtx) : mt_val _ (w_msg _ _ t) = None -> w_hash _ _ t = None ->
+  Kernels3.Tx_Hash_ tok TxHash (g_tx t) = Panic 5.
+Proof.
+  intros Hn Hh. unfold Kernels3.Tx_Hash_, g_tx. destruct t as [p m h ix]; cbn in Hn, Hh |- *. subst h. cbn.
+  now rewrite Hn.
 Qed.
 
 (* the same through the model's step function *)
-Theorem Tx_Hash_tstep next (t : mwtx) :
+Theorem Tx_Hash_tstep next (t : mwtx) : mt_val _ (w_msg _ _ t) <> None ->
   match tstep _ _ _ W (next, t) TpHash with
-  | ((_, t'), OHashV _ _ h) => Kernels3.Tx_Hash_ tok TxHash (g_tx t) = (Some h, g_tx t')
+  | ((_, t'), OHashV _ _ h) => Kernels3.Tx_Hash_ tok TxHash (g_tx t) = Ok (Some h, g_tx t')
   | _ => False
   end.
 Proof.
-  unfold tstep. rewrite (Tx_Hash_tie next). destruct (wtx_hash _ _ _ W next t) as [[n' t'] ph]. reflexivity.
+  intro Hnn. unfold tstep. rewrite (Tx_Hash_tie next _ Hnn). destruct (wtx_hash _ _ _ W next t) as [[n' t'] ph]. reflexivity.
 Qed.
 
 Theorem Tx_Index_tie (t : mwtx) : Kernels3.Tx_Index tok (g_tx t) = w_index _ _ t.
@@ -92,7 +102,7 @@ Proof. reflexivity. Qed.
 Theorem Block_Hash_tie (w : mworld) :
   match step _ _ _ W w OpHash with
   | (w', OHashV _ _ h) =>
-      Kernels3.Block_Hash hdr tok BlockHash (g_block (w_blk _ _ _ w)) = (Some h, g_block (w_blk _ _ _ w'))
+      Kernels3.Block_Hash hdr tok BlockHash (g_block (w_blk _ _ _ w)) = Ok (Some h, g_block (w_blk _ _ _ w'))
   | _ => False
   end.
 Proof.
